@@ -132,7 +132,12 @@ def gen_formula(rng, depth=0):
         elif r < 0.92:
             parts.append('\\mbox{if $%s$}' % gen_formula(rng, depth + 1))
         else:
-            parts.append('\\begin{array}{cc} %s & %s \\\\ %s & %s \\end{array}' % tuple(gen_formula(rng, depth + 2) for _ in range(4)))
+            # sparse arrays too: an empty cell keeps its separator
+            cells = [gen_formula(rng, depth + 2) if rng.random() < 0.75 else '' for _ in range(4)]
+            for a, b in ((0, 1), (2, 3)):
+                if not cells[a] and not cells[b]:
+                    cells[rng.choice((a, b))] = rng.choice('abxy')      # a row without any content is a recorded finding (bounded/empty-array-row)
+            parts.append('\\begin{array}{cc} %s & %s \\\\ %s & %s \\end{array}' % tuple(cells))
     return ' '.join(parts)
 
 
@@ -217,6 +222,15 @@ def _bounded(check, gen, small=None):
     return run
 
 
+def bounded_empty_row(budget, rng):
+    """an array row whose cells are all empty is still a row of the formula"""
+    w = dict(formula='\\begin{array}{cc} a & b \\\\ & \\\\ c & d \\end{array}', env='dollar', macro=False)
+    ok, d = check_math(w)
+    if not ok:
+        return False, 1, d, dict(text=w['formula'], kind='empty-array-row')
+    return True, 1, ''
+
+
 CONTRACTS = {
     'VerbatimEnvironment.invoke/scan': dict(check=check_verbatim, gen=gen_verbatim, small=small_verbatim, bounded=True),
     'verb.invoke/scan': dict(check=check_verb, gen=gen_verb, bounded=True),
@@ -230,5 +244,6 @@ BOUNDED = [('bounded/verbatim', 'the content of a verbatim environment is reprod
             _bounded(check_verb, gen_verb)),
            ('bounded/math-source', 'reconstructed source / MathJax source of a formula equals what the author wrote, token for token (blanks aside, user macro expanded, < > mapped for MathJax)',
             'random formulas of a grammar of depth <= 4 (scripts, fractions, roots, delimiters, arrays, text boxes) in $ $, \\( \\), \\[ \\], equation and inside a text argument',
-            _bounded(check_math, gen_math))]
-CLASSES = {}
+            _bounded(check_math, gen_math)),
+           ('bounded/empty-array-row', 'an array row without content is kept', '1 formula', bounded_empty_row)]
+CLASSES = {'empty-array-row': lambda w: isinstance(w, dict) and w.get('kind') == 'empty-array-row'}
